@@ -388,8 +388,20 @@ def run(reg, idx, name, timeout_ms=None, seed=0):
             # but membership tests, size, truth and set algebra: cannot be decided syntactically
             obs.append(ob("fx/package/sets-used-for-membership-only", not nd_unknown, nd_unknown, status=None if not nd_unknown else "undecided"))
             # per-call accumulators
+            # the map the dispatcher returns is allocated by the call itself (whatever it is called)
             pdm = fr.get("chartparse.track:parse_data_from_chart_lines")
-            obs.append(ob("fx/chartparse.track:parse_data_from_chart_lines/accumulator-allocated-per-call", pdm is not None and "m" in pdm.own, "m = ParsedDataMap()"))
+            info = idx.funcs.get("chartparse.track:parse_data_from_chart_lines")
+            if pdm is None or info is None:
+                obs.append(ob("fx/chartparse.track:parse_data_from_chart_lines/accumulator-allocated-per-call", False,
+                              "function not found (renamed?)", status="undecided"))
+            else:
+                rets = [n.value for n in ast.walk(info.node) if isinstance(n, ast.Return) and n.value is not None]
+                names = [r.id for r in rets if isinstance(r, ast.Name)]
+                fresh = [r for r in rets if isinstance(r, ast.Call)]        # `return ParsedDataMap(...)`-style: fresh by construction
+                ok = bool(rets) and len(names) + len(fresh) == len(rets) and all(nm in pdm.own for nm in names)
+                obs.append(ob("fx/chartparse.track:parse_data_from_chart_lines/accumulator-allocated-per-call", ok,
+                              f"returned: {[ast.unparse(r) for r in rets]}; allocated by this call: {sorted(pdm.own)}",
+                              status=None if ok or all(isinstance(r, (ast.Name, ast.Call)) for r in rets) else "undecided"))
         elif name == "fx:readonly":
             for key in READ_ONLY_API:
                 f = fr.get(key)
@@ -410,9 +422,19 @@ def run(reg, idx, name, timeout_ms=None, seed=0):
             # ParsedDataMap objects are per-call and never stored in a returned object
             esc = []
             for key, info in idx.funcs.items():
+                # names bound to the dispatcher's map in this function (whatever they are called)
+                maps = set()
                 for n in ast.walk(info.node):
-                    if isinstance(n, ast.keyword) and isinstance(n.value, ast.Name) and n.value.id == "parsed_data":
-                        esc.append(key)
+                    if isinstance(n, ast.Assign) and isinstance(n.value, ast.Call) and ast.unparse(n.value.func).endswith("parse_data_from_chart_lines"):
+                        maps |= {t.id for t in n.targets if isinstance(t, ast.Name)}
+                for n in ast.walk(info.node):
+                    if isinstance(n, ast.Call) and not ast.unparse(n.func).endswith("parse_data_from_chart_lines"):
+                        for v in list(n.args) + [k.value for k in n.keywords]:
+                            if isinstance(v, ast.Name) and v.id in maps:
+                                esc.append(f"{key}:{n.lineno} {ast.unparse(n)[:60]}")
+                    if isinstance(n, ast.Return) and isinstance(n.value, ast.Name) and n.value.id in maps \
+                            and not key.endswith("parse_data_from_chart_lines"):
+                        esc.append(f"{key}:{n.lineno} returns the map")
             obs.append(ob("fx/package/ParsedDataMap-does-not-escape", not esc, esc))
             # frozen dataclasses
             for path in FROZEN:
